@@ -90,6 +90,18 @@ def gen_scenario(rng, seed, idx, mt):
           "p_sleep": rng.choice([0, 10]), "p_long_sleep": rng.choice([0, 10]), "p_sync_delay": rng.choice([0, 30]),
           "final": ["select * from pg_catalog.pg_tables"] + [f"select uid, k from {n}" for n in NAMES],
           "reopen": True, "final_ticks": 1 if mt else 2, "virtual_deadline_ms": 3_600_000}
+    if (not mt) and (not heavy) and rng.random() < 0.35:
+        # DDL/DML race variant: one session is held inside its commit (manifest record appended, epoch not yet
+        # published; or just before the append; or before the commit starts) until another session has pinned a
+        # snapshot / committed: a DROP TABLE or DELETE that pinned before an INSERT's publication does not see its row-set
+        who = f"s{rng.randrange(k)}"
+        sc["gates"] = [rng.choice([
+            {"actor": who, "point": "commit.before_publish", "until": "pin"},
+            {"actor": who, "point": "commit.before_publish", "until": "pin", "count": 2},
+            {"actor": who, "point": "commit.before_append", "until": "pin"},
+            {"actor": who, "point": "txn.before_commit", "until": "commit"},
+            {"actor": who, "point": "txn.after_pin", "until": "commit"}])]
+        sc["p_yield"], sc["p_sleep"], sc["p_long_sleep"] = 15, 0, 0
     if heavy:
         sc["gates"] = [rng.choice([
             {"actor": "bg", "point": "compactor.before_lock", "until": "commit"},
